@@ -21,10 +21,10 @@ import re
 with_part, without_part = (re.split(r"== demo against the unchanged[^\n]*", sec, maxsplit=1) + [""])[:2]
 meta = {
     "property": prop, "summary": summary, "needs": needs, "caught_by": caught, "base_commit": base,
-    "written_by": "independent sub-agent (sixth round) given only the property text, a scratch worktree and a list of code sites to avoid",
+    "written_by": "independent sub-agent (seventh round) given only the property text, a scratch worktree and a list of code sites to avoid",
     "confirmed": {
         "compiles_and_existing_suite_passes_with_change": "ctest re-run by me in the scratch worktree with the change applied (tools_seed_confirm.sh): " + ("100% passed" if suite_ok else "NOT CONFIRMED"),
-        "demo_fails_with_change": "exit=1" in with_part or "exit=134" in with_part or "exit=139" in with_part,
+        "demo_fails_with_change": "exit=1" in with_part or "exit=66" in with_part or "exit=134" in with_part or "exit=139" in with_part,
         "demo_passes_without_change": "exit=0" in without_part and "exit=1" not in without_part,
         "how": "tools_seed_confirm.sh <worktree>: cmake --build --target gtest && ctest in the worktree; demo.cpp compiled against the worktree (3 runs) and against /repo HEAD (3 runs); log in confirm.log",
     },
